@@ -26,7 +26,10 @@ RULE = (
     "scale axis {1e-3, 1e3} on one grid per dimension (plain and embedded) where, in addition, "
     "discretize + assemble + solve are repeated on the SAME grid, tensor and data dictionary; "
     "grid, tensor, bc and bc_values are digested before / after (purity); MVEM also on 5 valid "
-    "NON-CONVEX (dart quadrilateral) grids, plain and embedded"
+    "NON-CONVEX (dart quadrilateral) grids, plain and embedded; sequences: ONE RT0 / MVEM object and "
+    "ONE tensor object per K used for two grids in a row (same sizes / different topology; same "
+    "topology / different geometry; the same grid object moved), incl. RT0 followed by MVEM on the "
+    "same tensor objects"
 )
 ASSUMPTIONS = [
     "all boundary faces Dirichlet with data p(x_f); constant permeability, given as a 3x3 "
@@ -153,6 +156,21 @@ def cases(tier):
         ({"kind": "cart", "n": [2, 2], "pert": [[4, [1, -1]]]}, ["mvem"]),
         ({"kind": "cart", "n": [2, 2, 2], "map": "skew"}, ["mvem"]),
     ]
+    # sequences on ONE discretization object / ONE tensor object
+    tri, trip = {"kind": "tri", "n": [2, 2]}, {"kind": "tri", "n": [2, 2], "pert": [[4, [1, -1]]]}
+    seqs = [
+        ("topo", {"kind": "tri", "n": [3, 2]}, {"kind": "tri", "n": [2, 3]}),
+        ("geom", tri, dict(trip, map="shear")),
+        ("geom", dict(tri, embed="Rx"), dict(trip, embed="Rgen")),
+        ("geom", {"kind": "cart", "n": [3], "embed": "Rx"}, {"kind": "cart", "n": [3], "pert": [[1, [1]]], "embed": "Rgen"}),
+        ("moved", tri, dict(trip, map="skew")),
+        ("moved", dict(tri, embed="Rgen"), dict(trip, embed="Rx")),
+        ("geom", {"kind": "tet", "n": [1, 1, 1]}, {"kind": "tet", "n": [1, 1, 1], "pert": [[7, [1, -1, 1]]], "map": "shear"}),
+        ("topo", {"kind": "tet", "n": [2, 1, 1]}, {"kind": "tet", "n": [1, 1, 2]}),
+    ]
+    for kind, s1, s2 in seqs:
+        for methods in (["rt0", "rt0"], ["mvem", "mvem"], ["rt0", "mvem"], ["mvem", "rt0"]):
+            out.append({"grid": s1, "method": "+".join(methods), "seq": [kind, s1, s2], "methods": methods})
     for sp in DARTS:
         out.append({"grid": sp, "method": "mvem"})
         out.append({"grid": dict(sp, embed="Rgen"), "method": "mvem"})
@@ -176,11 +194,24 @@ def _projector(g):
 
 
 def run_case(case) -> Outcome:
+    if "seq" not in case:
+        return _run_single(case)
+    # ONE discretization object per method and ONE tensor object per K for the whole sequence;
+    # "methods" gives the method used at each step (RT0 then MVEM share the tensor objects)
+    out = Outcome()
+    shared = {"kind": case["seq"][0], "step": 0, "disc": {}, "perm": {}}
+    for spec, method in zip(case["seq"][1:], case["methods"]):
+        shared["step"] += 1
+        out.merge(_run_single({"grid": spec, "method": method}, shared))
+    return out
+
+
+def _run_single(case, shared=None) -> Outcome:
     import porepy as pp
 
     out = Outcome()
     spec, method = case["grid"], case["method"]
-    g = G.build(spec)
+    g = G.get_grid(spec, shared)
     d = g.dim
     nf, nc = g.num_faces, g.num_cells
     bf = G.boundary_faces(g)
@@ -198,6 +229,8 @@ def run_case(case) -> Outcome:
     if spec.get("set"):
         gcls += "/dart"
     reuse = bool(case.get("reuse"))
+    if shared is not None:
+        gcls += f"/seq-{shared['kind']}{shared['step']}"
     xc_o, xf_o, nrm_o = g.cell_centers.copy(), g.face_centers.copy(), g.face_normals.copy()
     ones = np.ones(nc)
     fields = [("1", 1.0, np.zeros(3))] + [("xyz"[i], 0.0, np.eye(3)[i]) for i in range(3)]
@@ -205,9 +238,15 @@ def run_case(case) -> Outcome:
     for kname, K in KS.items():
         perm = pp.SecondOrderTensor(K[0, 0] * ones, K[1, 1] * ones, K[2, 2] * ones,
                                     K[0, 1] * ones, K[0, 2] * ones, K[1, 2] * ones)
+        if shared is not None:  # same tensor object for every step with the same number of cells
+            if kname in shared["perm"] and shared["perm"][kname].values.shape[2] == nc:
+                perm = shared["perm"][kname]
+            shared["perm"][kname] = perm
         bc = pp.BoundaryCondition(g, bf, ["dir"] * bf.size)
         knorm = float(np.abs(K).max())
         disc = (pp.RT0 if method == "rt0" else pp.MVEM)(KW)
+        if shared is not None:
+            disc = shared["disc"].setdefault(method, disc)
         base = {"grid": spec, "grid_name": gname, "method": method, "K": K}
         Mass = None
         for label, c0, grad in fields:
@@ -242,7 +281,7 @@ def run_case(case) -> Outcome:
                 tol_u = TOL * knorm * amax * (float(np.abs(grad).max()) + pmax / hmin)
                 tol_p = TOL * pmax
                 nontrivial = label != "1" and (not plain or kname != "I")
-                key = (gname, method, kname, label, npass) if nontrivial else None
+                key = (gname, method, kname, label, npass, shared["step"] if shared else 0) if nontrivial else None
                 bad = None
                 if u.shape != (nf,) or ph.shape != (nc,) or not (np.all(np.isfinite(u)) and np.all(np.isfinite(ph))):
                     bad = ("solution has wrong shape or non-finite entries", -1, None, None, 0.0)
